@@ -230,6 +230,7 @@ def progR3 : Bool → List (List POp) → List Op → R3
   | ran, pl, .addHandler _ _ _ :: r => progR3 ran pl r
   | ran, pl, .plugin ps :: r => progR3 ran (pl ++ [ps]) r
   | ran, pl, .callerEdits :: r => progR3 ran pl r
+  | ran, pl, .stopHandler _ :: r => progR3 ran pl r
   | false, pl, .run :: r => (pluginR3 pl).app (progR3 true pl r)
   | true, pl, .run :: r => progR3 true pl r
 
@@ -268,6 +269,10 @@ theorem exec_regs (s s' : St) (p : List Op) (h : exec s p = some s') :
         · cases hs; simp [progR3, St.r3]
       case plugin ps => cases hs; simp [progR3, St.r3]
       case callerEdits => cases hs; simp [progR3]
+      case stopHandler g =>
+        split at hs
+        · cases hs; simp [progR3, St.r3]
+        · cases hs
       case pubDec ids => cases hs; simp [progR3, St.r3, R3.app, List.append_assoc]
       case subDec ids => cases hs; simp [progR3, St.r3, R3.app, List.append_assoc]
       case run =>
@@ -281,7 +286,7 @@ theorem exec_regs (s s' : St) (p : List Op) (h : exec s p = some s') :
           simp [hr', progR3, R3.app_assoc]
 
 theorem step_keeps_started (s s' : St) (o : Op) (h : step s o = some s') (x : HSt) (hx : x ∈ s.hs)
-    (t : List Ev) (ht : x.trace = some t) : x ∈ s'.hs := by
+    (t : List Ev) (ht : x.trace = some t) (hno : o ≠ .stopHandler x.name) : x ∈ s'.hs := by
   cases o <;> simp only [step] at h
   case routerMw ids => cases h; exact hx
   case handlerMw g ids =>
@@ -294,6 +299,13 @@ theorem step_keeps_started (s s' : St) (o : Op) (h : step s o = some s') (x : HS
     · cases h; exact List.mem_append_left _ hx
   case plugin ps => cases h; exact hx
   case callerEdits => cases h; exact hx
+  case stopHandler g =>
+    split at h
+    · cases h
+      refine List.mem_filter.mpr ⟨hx, ?_⟩
+      have : x.name ≠ g := fun e => hno (by rw [e])
+      simpa using this
+    · cases h
   case pubDec ids => cases h; exact hx
   case subDec ids => cases h; exact hx
   case run =>
@@ -316,6 +328,10 @@ theorem step_obs (s s' : St) (o : Op) (h : step s o = some s') :
     · cases h; simp
   case plugin ps => cases h; simp
   case callerEdits => cases h; simp
+  case stopHandler g =>
+    split at h
+    · cases h; simp
+    · cases h
   case pubDec ids => cases h; simp
   case subDec ids => cases h; simp
   case run => cases h; simp [(loadPlugins_r3 s).2.2.2.2]
@@ -335,10 +351,11 @@ theorem exec_obs_prefix (s s' : St) (p : List Op) (h : exec s p = some s') : ∃
       · exact ⟨[block s2.hs] ++ ex, by rw [hex, ho.2 hr]; simp⟩
       · exact ⟨ex, by rw [hex, ho.1 hr]⟩
 
-/-- **snapshot**: once a handler is started its per-message trace never changes, whatever is registered later,
-    and every later observation block reports exactly that trace for it -/
+/-- **snapshot**: once a handler is started its per-message trace never changes, whatever is registered, added, started
+    or stopped later – as long as it is not stopped itself – and every later observation block reports exactly that
+    trace for it -/
 theorem started_frozen (s s' : St) (p : List Op) (h : exec s p = some s') (x : HSt) (hx : x ∈ s.hs)
-    (t : List Ev) (ht : x.trace = some t) :
+    (t : List Ev) (ht : x.trace = some t) (hno : ∀ o ∈ p, o ≠ .stopHandler x.name) :
     x ∈ s'.hs ∧ ∀ b ∈ s'.obs.drop s.obs.length, (x.name, t) ∈ b := by
   induction p generalizing s with
   | nil => simp [exec] at h; subst h; simp [hx]
@@ -348,8 +365,8 @@ theorem started_frozen (s s' : St) (p : List Op) (h : exec s p = some s') (x : H
     | none => simp [hs] at h
     | some s2 =>
       simp only [hs] at h
-      have hx2 := step_keeps_started s s2 o hs x hx t ht
-      have ih2 := ih s2 h hx2
+      have hx2 := step_keeps_started s s2 o hs x hx t ht (hno o (List.mem_cons_self ..))
+      have ih2 := ih s2 h hx2 (fun o' ho' => hno o' (List.mem_cons_of_mem _ ho'))
       refine ⟨ih2.1, ?_⟩
       have ho := step_obs s s2 o hs
       by_cases hr : o = .run
@@ -373,10 +390,12 @@ theorem started_frozen (s s' : St) (p : List Op) (h : exec s p = some s') (x : H
     subscriber decorators in order; `enter` of the router-level + own middlewares in registration order; the handler;
     `leave` in reverse; publisher decorators in order – where the registrations are those of `pre` followed, when this
     `run` is `Run` itself, by what the plugins register (plugins are executed BEFORE the handlers are started).
-    Registrations in `post` do not reach it; the observation of that `run` and of every later one reports that trace. -/
+    Registrations in `post` do not reach it, nor do other handlers stopping or being added (a handler added after another
+    one stopped is a handler of its own: it gets no other handler's middlewares and gives none away); the observation of
+    that `run` and of every later one reports that trace, as long as the handler is not stopped itself. -/
 theorem program_chain_trace (pre post : List Op) (s1 s : St) (x : HSt)
     (h1 : exec {} pre = some s1) (hx : x ∈ s1.hs) (hns : x.trace = none)
-    (h2 : exec s1 (.run :: post) = some s) :
+    (h2 : exec s1 (.run :: post) = some s) (hno : ∀ o ∈ post, o ≠ .stopHandler x.name) :
     let r := (progR3 false [] pre).app (if s1.ran then {} else pluginR3 s1.plugins)
     let t := specTrace r.regs r.pd r.sd x.name x.hasPub x.app
     (⟨x.name, x.hasPub, x.app, some t⟩ : HSt) ∈ s.hs ∧ ∀ b ∈ s.obs.drop s1.obs.length, (x.name, t) ∈ b := by
@@ -393,7 +412,7 @@ theorem program_chain_trace (pre post : List Op) (s1 s : St) (x : HSt)
     have e : (loadPlugins s1).regs = r.regs ∧ (loadPlugins s1).pd = r.pd ∧ (loadPlugins s1).sd = r.sd := by
       rw [← hr3]; exact ⟨rfl, rfl, rfl⟩
     rw [e.1, e.2.1, e.2.2]
-  have hfz := started_frozen _ s post h2 _ hmem t rfl
+  have hfz := started_frozen _ s post h2 _ hmem t rfl hno
   refine ⟨hfz.1, ?_⟩
   intro b hb
   have hd : s.obs.drop s1.obs.length =
@@ -457,5 +476,14 @@ example : (exec {} [.plugin [.routerMw [9], .pubDec [7], .subDec [8]], .addHandl
           [("a", [.app 4, .sub 8 true, .enter 1, .enter 9, .handler, .leave 9, .leave 1, .pub 7, .published]),
            ("b", [.app 4, .sub 8 true, .enter 1, .enter 9, .handler, .leave 9, .leave 1]),
            ("c", [.sub 8 true, .enter 1, .enter 9, .handler, .leave 9, .leave 1])]] := by decide
+
+/-- non-vacuity: handlers a and b with middlewares of their own are running, a is stopped, c is added afterwards with
+    its own middleware: b keeps its chain, c runs router-level + its own – none of b's, none of a's -/
+example : (exec {} [.routerMw [1], .addHandler "a" true none, .handlerMw "a" [2], .addHandler "b" false none, .handlerMw "b" [3],
+                    .run, .stopHandler "a", .addHandler "c" false none, .handlerMw "c" [4], .run]).map (·.obs) =
+    some [[("a", [.enter 1, .enter 2, .handler, .leave 2, .leave 1, .published]),
+           ("b", [.enter 1, .enter 3, .handler, .leave 3, .leave 1])],
+          [("b", [.enter 1, .enter 3, .handler, .leave 3, .leave 1]),
+           ("c", [.enter 1, .enter 4, .handler, .leave 4, .leave 1])]] := by decide
 
 end Wm.Chain
